@@ -78,6 +78,8 @@ func sameView(a, b view) string {
 	return ""
 }
 
+var c16SharedDst *simdjson.ParsedJson
+
 var overwriteNames = []string{"zeros", "0xFF", "quotes-and-backslashes", "another-valid-document", "random-bytes", "shifted-by-one"}
 
 func overwrite(r *gen.Rand, buf []byte, pattern int) {
@@ -236,12 +238,25 @@ func (w *W) c16Judge(k int, g string, doc []byte, nd bool) {
 			}
 		}
 		var dst *simdjson.ParsedJson
-		if r.Bool() {
+		switch r.Intn(3) {
+		case 0:
+			// the destination every earlier document of this worker was cloned into: its
+			// buffers hold whatever came before, longer or shorter than this document
+			if c16SharedDst == nil {
+				c16SharedDst = &simdjson.ParsedJson{}
+			}
+			dst = c16SharedDst
+			w.Count("clones_into_shared_recycled_destination", 1)
+		case 1:
 			// a destination that held something else before
 			dst, _ = simdjson.Parse([]byte(`{"old":["destination","content",1,2,3],"pad":"`+string(bytes.Repeat([]byte("z"), r.Intn(400)))+`"}`), nil)
 			dst = dst.Clone(nil)
 		}
 		cl := src.Clone(dst)
+		if dst == c16SharedDst && dst != nil {
+			// keep using the recycled object, but edit a private copy below so that the shared one keeps its history
+			c16SharedDst = cl
+		}
 		base := observe(cl, true)
 		w.Eval(1)
 		if base.err != "" || cmpRoots(model, base.roots, nil, false) != "" {
